@@ -332,6 +332,7 @@ func (p *asyncProducer) dispatcher() {
 			Logger.Println("Something tried to send a nil message, it was ignored.")
 			continue
 		}
+		verifHook("ap.dispatch", msg)
 
 		if msg.flags&shutdown != 0 {
 			shuttingDown = true
@@ -543,6 +544,7 @@ func (pp *partitionProducer) dispatch() {
 	}()
 
 	for msg := range pp.input {
+		verifHook("pp.recv", pp.topic, pp.partition, msg)
 		if pp.brokerProducer != nil && pp.brokerProducer.abandoned != nil {
 			select {
 			case <-pp.brokerProducer.abandoned:
@@ -609,6 +611,7 @@ func (pp *partitionProducer) dispatch() {
 func (pp *partitionProducer) newHighWatermark(hwm int) {
 	Logger.Printf("producer/leader/%s/%d state change to [retrying-%d]\n", pp.topic, pp.partition, hwm)
 	pp.highWatermark = hwm
+	verifHook("pp.newhwm", pp.topic, pp.partition, hwm)
 
 	// send off a fin so that we know when everything "in between" has made it
 	// back to us and we can safely flush the backlog (otherwise we risk re-ordering messages)
@@ -626,6 +629,7 @@ func (pp *partitionProducer) flushRetryBuffers() {
 	Logger.Printf("producer/leader/%s/%d state change to [flushing-%d]\n", pp.topic, pp.partition, pp.highWatermark)
 	for {
 		pp.highWatermark--
+		verifHook("pp.flush", pp.topic, pp.partition, pp.highWatermark)
 
 		if pp.brokerProducer == nil {
 			if err := pp.updateLeader(); err != nil {
@@ -693,6 +697,7 @@ func (p *asyncProducer) newBrokerProducer(broker *Broker) *brokerProducer {
 	go withRecover(func() {
 		for set := range bridge {
 			request := set.buildRequest()
+			verifHook("bp.bridge", broker.ID(), set)
 
 			response, err := broker.Produce(request)
 
@@ -754,6 +759,7 @@ func (bp *brokerProducer) run() {
 			if msg == nil {
 				continue
 			}
+			verifHook("bp.msg", bp.broker.ID(), msg)
 
 			if msg.flags&syn == syn {
 				Logger.Printf("producer/broker/%d state change to [open] on %s/%d\n",
@@ -799,6 +805,7 @@ func (bp *brokerProducer) run() {
 				bp.parent.returnError(msg, err)
 				continue
 			}
+			verifHook("bp.added", bp.broker.ID(), msg, bp.buffer)
 
 			if bp.parent.conf.Producer.Flush.Frequency > 0 && bp.timer == nil {
 				bp.timer = time.After(bp.parent.conf.Producer.Flush.Frequency)
@@ -875,6 +882,7 @@ func (bp *brokerProducer) rollOver() {
 }
 
 func (bp *brokerProducer) handleResponse(response *brokerProducerResponse) {
+	verifHook("bp.response", bp.broker.ID(), response.set, response.err)
 	if response.err != nil {
 		bp.handleError(response.set, response.err)
 	} else {
@@ -974,6 +982,7 @@ func (bp *brokerProducer) handleSuccess(sent *produceSet, response *ProduceRespo
 
 func (p *asyncProducer) retryBatch(topic string, partition int32, pSet *partitionSet, kerr KError) {
 	Logger.Printf("Retrying batch for %v-%d because of %s\n", topic, partition, kerr)
+	verifHook("ap.retryBatch", topic, partition, pSet)
 	produceSet := newProduceSet(p)
 	produceSet.msgs[topic] = make(map[int32]*partitionSet)
 	produceSet.msgs[topic][partition] = pSet
@@ -1075,6 +1084,7 @@ func (p *asyncProducer) returnError(msg *ProducerMessage, err error) {
 		Logger.Printf("producer/txnmanager rolling over epoch due to publish failure on %s/%d", msg.Topic, msg.Partition)
 		p.txnmgr.bumpEpoch()
 	}
+	verifHook("ap.outcome", msg, err)
 	msg.clear()
 	pErr := &ProducerError{Msg: msg, Err: err}
 	if p.conf.Producer.Return.Errors {
@@ -1093,6 +1103,7 @@ func (p *asyncProducer) returnErrors(batch []*ProducerMessage, err error) {
 
 func (p *asyncProducer) returnSuccesses(batch []*ProducerMessage) {
 	for _, msg := range batch {
+		verifHook("ap.outcome", msg, nil)
 		if p.conf.Producer.Return.Successes {
 			msg.clear()
 			p.successes <- msg
